@@ -106,6 +106,9 @@ def parseWord (w : String) : Option Uuid.Word :=
   ucql <col> <kind> <prev> <data|null> → ok|err <destination afterwards>   (gocql.Unmarshal, uuid/timeuuid column)
   ucqlt <col> <sec> <nsec> <data|null> → ok|err <sec.nsec afterwards>     (gocql.Unmarshal into a *time.Time)
   mcql <kind> <content>                → ok <16 bytes> | err               (gocql.Marshal of a uuid column value)
+  ucqln <col> <kind> <prev|nilptr> <data|null|-> → ok|err nilptr|<content of the NEW pointee>  (gocql.Unmarshal into a **T)
+  ucqlnt <col> <prev|nilptr> <data|null> → ok|err nilptr|<sec.nsec>          (gocql.Unmarshal into a **time.Time)
+  mcqlp <hex16|nil>                    → ok null|<16 bytes>                (gocql.Marshal of a *UUID)
   useq <prev16> <step>...              → ok:<dst>|err:<dst> per step, all on ONE destination
   rtdirty <prev16> <u16>               → u (every printer → every decoder, destination holding prev)
   sched <c0> <hw> <sec> <nsec> <word>… → distinct|dup:<i>,<j> n=<returned> ctr=<counter> inflight=<k> h=<hash of all results> [g:uuid …]
@@ -214,6 +217,25 @@ def step (_ : Unit) (ws : List String) : Unit × String :=
         let r := Uuid.unmarshalCQLTime (col == "timeuuid") (d.getD []) (ps, pn)
         (if r.1 then "ok " else "err ") ++ s!"{r.2.1}.{r.2.2}"
       | _, _, _ => "bad-op"
+  | ["ucqln", _, kind, _, d] =>                                                   -- C19_cql_nullable_spec
+      -- the previous pointer / pointee (4th word) is irrelevant: a null gives nil, anything else a fresh value
+      match parseDst kind (if kind == "bytes" then "nil" else if kind == "str" then "-" else "00000000000000000000000000000000"),
+            optBytes d with
+      | some k, some d =>
+        let r := Uuid.unmarshalNullable d k
+        (if r.1 then "ok " else "err ") ++ (match r.2 with | none => "nilptr" | some v => showDst v)
+      | _, _ => "bad-op"
+  | ["ucqlnt", col, _, d] => match optBytes d with                                -- C19_cql_nullable_time
+      | some d =>
+        let r := Uuid.unmarshalNullableTime (col == "timeuuid") d
+        (if r.1 then "ok " else "err ") ++ (match r.2 with | none => "nilptr" | some t => s!"{t.1}.{t.2}")
+      | none => "bad-op"
+  | ["mcqlp", c] => match optBytes c with                                         -- C19_cql_nullable_roundtrip
+      | some u => match Uuid.marshalPtr u with
+        | some none => "ok null"
+        | some (some b) => "ok " ++ toHex b
+        | none => "err"
+      | none => "bad-op"
   | ["mcql", kind, c] => match (if kind == "bytes" then (optBytes c).map Uuid.Dst.bytes else parseDst kind c) with
       | some v => match Uuid.marshalCQL v with                                    -- C19_cql_marshal_unmarshal
         | some b => "ok " ++ toHex b
